@@ -74,26 +74,26 @@ PENDING = {
 
 # Additions of later rounds (appended to the level text of the check)
 EXTRA = {
- "C19": " Also: construction through reaction_from_dict with every alias of every key under a foreign parent units system; the empty environment label; default-argument isolation.",
- "C15": " Also: grids of more than 65536 cells and their graphs (pairs around every 2^16 boundary).",
- "C13": " Also: a third of the systems built from dictionaries (key aliases at every level); default state / chemostat map of systems with 4100-5300 cells; default-argument isolation.",
- "C12": " Also: text side files of 30-560 kB for the environment and chemostat maps.",
- "C11": " Also: a set-up refused by the library (unknown engine option) followed by finalize() around valid runs; networks of 33-140 reactions.",
- "C09": " Also: refused assignments to a script leave it unchanged; grids of 256 m cells and trajectories of exactly k x 65536 values (record by record against a per-iteration run).",
- "C08": " Also: a floating-point-environment probe (subnormal amounts before / after runs of every engine kind in a fresh process); 250 000+ iterations in 2-3 big iterate_n batches against small batches; the trajectory's system edited before its stored script is re-run.",
- "C04": " Also: the state re-written as bare numbers on the script's own copy of the system; default-argument isolation; default states of systems with 4100-5300 cells.",
- "C01": " Also: hubs of 255-320 neighbours; single steps 60-400 x beyond the stability limit (entries overshoot below zero).",
- "C02": " Also: macroscopic counts (1e7..3e9 molecules per entry, beyond 2^24 and 2^31) with exact integer conservation for the stochastic engines. Rounds 5-6: overshooting Euler runs; reactions changing 5-6 species; trajectories of exactly k x 65536 values on grids of 256 m cells.",
- "C03": " Also: apply_reaction with its documented options (custom chemostat map replacing the system's, custom state, update=True); chemostat maps given per species label and flags other than 0/1; a 'reservoir' probe - a flagged entry of 1e9..1e14 molecules as diffusion source, up to 1e11 events per channel and step, each entry's one-step change judged against the master equation's mean and variance (Bernstein bound). Rounds 5-6: systems of 4100-5300 cells and of 33-70 species (flags up to the last entry / on species >= 31); refused apply_reaction calls leave map and state unchanged.",
- "C05": " Also: numpy scalars as plain-number operands (either side). Rounds 5-6: operands are re-read after refused operations; exponents merely near a rational (0.3333, 1.0001) must be refused.",
- "C06": " Also: arrays given as tuple / float32 / float16 / int32 / int64 ndarrays and lists of numpy scalars; exponents to +-9 for part of the random cases (judged while every factor and intermediate value stays inside 1e+-280). Rounds 5-6: partial dictionaries as targets; arrays of 65535-200000 elements.",
- "C07": " Also: tau-leap tally cases with means of 150 and 400 events per channel and step. Rounds 5-6: hubs of 255-300 neighbours; coarse leaps and a coarse-leap tally (one step out of a cell holding 1-5 molecules, untruncated Poisson).",
- "C10": " Also: a refused set-up (None, a number, a file name, a dictionary) as a letter: it must change nothing; an iterate_n letter with counts beyond a C int (3e9, 2^31, 2^32, 2^32+2, 1e12); termination scripts under all four sampling policies with a 'frozen' family (nothing can happen / the reactant runs out) through simulate_script; fixed-step counts with the step given in fs..h under scripts counting in fs..h. Rounds 5-6: the print_progress loop of simulate_script; scripts whose only requested time is 0.",
- "C14": " Also: seeds given as numpy integers, floats and 0-d arrays. Rounds 5-6: families wide-4096 (entries at the ends of 4096-item blocks) and dilute-wide (a few molecules over > 1000 cells).",
- "C16": " Also: the identity-map run under random script options (sampling policy / interval / t_max / seed) and the guarantees of init_state_processing 'none' and 'redist' through cgmap=identity. Rounds 5-6: a refused coarse-grained run leaves the caller's script unchanged; coarse trajectories of 255-700 samples.",
- "C17": " Also: evenly spaced dyadic time lattices (exact ties after odd samples); grids of 130..2000 cells with the cell given as tuple / list / ndarray / numpy scalars / object with numpy members in int8..uint64 and numpy integers as linear index. Rounds 5-6: trajectories of 1024-2049 samples; the stored script's system edited while the trajectory is read.",
- "C18": " Also: the scale as the library applies it (1 <text> converted to m, s, mol against the exact ratio). Rounds 5-6: quantities built from numpy scalars under numpy's legacy print modes.",
- "C20": " Also: grid sizes whose documented int() cast is not positive (0.5, -0.5, 1e-9 ...). Rounds 5-6: near-miss dimensions (one exponent off by one); the reserved name 'default' as a run-time string; foreign Reaction objects in apply_reaction.",
+ "C19": " Also: construction through reaction_from_dict with every alias of every key under a foreign parent units system; the empty environment label; default-argument isolation. Rounds 7-9: comma-joined environment keys; the same object listed twice; repeated equation terms.",
+ "C15": " Also: grids of more than 65536 cells and their graphs (pairs around every 2^16 boundary). Rounds 7-9: extreme diffusion coefficients in the grid / graph equivalence.",
+ "C13": " Also: a third of the systems built from dictionaries (key aliases at every level); default state / chemostat map of systems with 4100-5300 cells; default-argument isolation. Rounds 7-9: per-environment densities whose entries carry different units; dictionary defaults.",
+ "C12": " Also: text side files of 30-560 kB for the environment and chemostat maps. Rounds 7-9: files written twice (large, then small) to one path; entries for unlisted environments; dictionaries with key aliases read twice and compared before / after.",
+ "C11": " Also: a set-up refused by the library (unknown engine option) followed by finalize() around valid runs; networks of 33-140 reactions. Rounds 7-9: engine objects kept across sizes; graphs with zero-surface edges.",
+ "C09": " Also: refused assignments to a script leave it unchanged; grids of 256 m cells and trajectories of exactly k x 65536 values (record by record against a per-iteration run). Rounds 7-9: engine objects kept across sizes; many requested times in one step; intervals down to 1e-200 dt.",
+ "C08": " Also: a floating-point-environment probe (subnormal amounts before / after runs of every engine kind in a fresh process); 250 000+ iterations in 2-3 big iterate_n batches against small batches; the trajectory's system edited before its stored script is re-run. Rounds 7-9: scripts counting in other amount units; the script object itself run earlier on engines of any kind; polling mode.",
+ "C04": " Also: the state re-written as bare numbers on the script's own copy of the system; default-argument isolation; default states of systems with 4100-5300 cells. Rounds 7-9: merged-output units; dictionary defaults against constructor defaults; unit strings in litre / molar and slash-negative spellings.",
+ "C01": " Also: hubs of 255-320 neighbours; single steps 60-400 x beyond the stability limit (entries overshoot below zero). Rounds 7-9: extreme diffusion scales; the exported ODE right-hand side evaluated at a second state with the first result kept.",
+ "C02": " Also: macroscopic counts (1e7..3e9 molecules per entry, beyond 2^24 and 2^31) with exact integer conservation for the stochastic engines. Rounds 5-6: overshooting Euler runs; reactions changing 5-6 species; trajectories of exactly k x 65536 values on grids of 256 m cells. Rounds 7-9: periodic axes of extent 1 and zero-surface graph edges through the shared generators.",
+ "C03": " Also: apply_reaction with its documented options (custom chemostat map replacing the system's, custom state, update=True); chemostat maps given per species label and flags other than 0/1; a 'reservoir' probe - a flagged entry of 1e9..1e14 molecules as diffusion source, up to 1e11 events per channel and step, each entry's one-step change judged against the master equation's mean and variance (Bernstein bound). Rounds 5-6: systems of 4100-5300 cells and of 33-70 species (flags up to the last entry / on species >= 31); refused apply_reaction calls leave map and state unchanged. Rounds 7-9: per-species dictionaries used for two systems and compared before / after.",
+ "C05": " Also: numpy scalars as plain-number operands (either side). Rounds 5-6: operands are re-read after refused operations; exponents merely near a rational (0.3333, 1.0001) must be refused. Rounds 7-9: comparisons with ints no double equals, ints beyond the double range and Fractions a hair off the double.",
+ "C06": " Also: arrays given as tuple / float32 / float16 / int32 / int64 ndarrays and lists of numpy scalars; exponents to +-9 for part of the random cases (judged while every factor and intermediate value stays inside 1e+-280). Rounds 5-6: partial dictionaries as targets; arrays of 65535-200000 elements. Rounds 7-9: item sequences (list / tuple / object ndarray) used for two arrays, the caller's items unchanged; target strings with /sym-e factors.",
+ "C07": " Also: tau-leap tally cases with means of 150 and 400 events per channel and step. Rounds 5-6: hubs of 255-300 neighbours; coarse leaps and a coarse-leap tally (one step out of a cell holding 1-5 molecules, untruncated Poisson). Rounds 7-9: waiting times conditional on the event category; negative pre-states judged on the tally channel only.",
+ "C10": " Also: a refused set-up (None, a number, a file name, a dictionary) as a letter: it must change nothing; an iterate_n letter with counts beyond a C int (3e9, 2^31, 2^32, 2^32+2, 1e12); termination scripts under all four sampling policies with a 'frozen' family (nothing can happen / the reactant runs out) through simulate_script; fixed-step counts with the step given in fs..h under scripts counting in fs..h. Rounds 5-6: the print_progress loop of simulate_script; scripts whose only requested time is 0. Rounds 7-9: an allocator monitor (mallinfo2 + tracemalloc) over windows of set-up / release cycles in a fresh process; a script edited after engines used it against the same edit of a pristine copy; 2-6 million-step runs.",
+ "C14": " Also: seeds given as numpy integers, floats and 0-d arrays. Rounds 5-6: families wide-4096 (entries at the ends of 4096-item blocks) and dilute-wide (a few molecules over > 1000 cells). Rounds 7-9: twin species (independence of the draws); seeds as strings of digits.",
+ "C16": " Also: the identity-map run under random script options (sampling policy / interval / t_max / seed) and the guarantees of init_state_processing 'none' and 'redist' through cgmap=identity. Rounds 5-6: a refused coarse-grained run leaves the caller's script unchanged; coarse trajectories of 255-700 samples. Rounds 7-9: the coarse trajectory unchanged by un-coarse-graining and spread twice with the same result; amounts of 1e+-295..303.",
+ "C17": " Also: evenly spaced dyadic time lattices (exact ties after odd samples); grids of 130..2000 cells with the cell given as tuple / list / ndarray / numpy scalars / object with numpy members in int8..uint64 and numpy integers as linear index. Rounds 5-6: trajectories of 1024-2049 samples; the stored script's system edited while the trajectory is read. Rounds 7-9: repeated sample times; queries 2^-22 of an interval off the middles; infinite query times; trajectories loaded with a system other than their script's.",
+ "C18": " Also: the scale as the library applies it (1 <text> converted to m, s, mol against the exact ratio). Rounds 5-6: quantities built from numpy scalars under numpy's legacy print modes. Rounds 7-9: litre / molar symbols in rendered strings; per-component range guard of the applied-scale monitor.",
+ "C20": " Also: grid sizes whose documented int() cast is not positive (0.5, -0.5, 1e-9 ...). Rounds 5-6: near-miss dimensions (one exponent off by one); the reserved name 'default' as a run-time string; foreign Reaction objects in apply_reaction. Rounds 7-9: wrong-dimension items following valid ones in item sequences; names close to the reserved environment name.",
 }
 
 def main():
